@@ -60,18 +60,19 @@ Theorem C09_next_processable : forall (cstate : Type) dest_check (J : cacct csta
 Proof. exact inbox_never_wedged. Qed.
 
 (* ---- the modelled contracts satisfy table_ok, hence complete or refund, for every contract state satisfying the
-   contract's storage invariant (which every step re-establishes) *)
-Theorem C09_plasma_completes : forall dc e a s,
+   contract's storage invariant (which every step re-establishes); [ef s] is the frontier momentum and the
+   constants under which the send s is received *)
+Theorem C09_plasma_completes : forall dc (ef : send -> env) a s,
   nonneg pstore a -> J_plasma a -> send_ok s -> dc (refund_of s) = None ->
-  outcome_ok pstore J_plasma a s (generate_receive pstore dc (plasma_lookup e) a s).
+  outcome_ok pstore J_plasma a s (generate_receive pstore dc (plasma_lookup ef) a s).
 Proof. exact plasma_completes. Qed.
-Theorem C09_stake_completes : forall dc e a s,
-  env_ok e -> nonneg sstore a -> J_stake a -> send_ok s -> dc (refund_of s) = None ->
-  outcome_ok sstore J_stake a s (generate_receive sstore dc (stake_lookup e) a s).
+Theorem C09_stake_completes : forall dc (ef : send -> env) a s,
+  (forall s, env_ok (ef s)) -> nonneg sstore a -> J_stake a -> send_ok s -> dc (refund_of s) = None ->
+  outcome_ok sstore J_stake a s (generate_receive sstore dc (stake_lookup ef) a s).
 Proof. exact stake_completes. Qed.
-Theorem C09_htlc_completes : forall dc H e a s,
+Theorem C09_htlc_completes : forall dc H (ef : send -> env) a s,
   nonneg hstore a -> J_htlc a -> send_ok s -> dc (refund_of s) = None ->
-  outcome_ok hstore J_htlc a s (generate_receive hstore dc (htlc_lookup H e) a s).
+  outcome_ok hstore J_htlc a s (generate_receive hstore dc (htlc_lookup H ef) a s).
 Proof. exact htlc_completes. Qed.
 Theorem C09_common_completes : forall dc self a s,
   nonneg cstore a -> J_common a -> send_ok s -> dc (refund_of s) = None ->
@@ -81,10 +82,10 @@ Theorem C09_token_completes : forall dc a s,
   nonneg tstore a -> J_token a -> send_ok s -> dc (refund_of s) = None ->
   outcome_ok tstore J_token a s (generate_receive tstore dc token_lookup a s).
 Proof. exact token_completes. Qed.
-Theorem C09_htlc_inbox_never_wedged : forall dc H e q,
+Theorem C09_htlc_inbox_never_wedged : forall dc H (ef : send -> env) q,
   Forall (fun s => send_ok s /\ dc (refund_of s) = None) q ->
   forall a, nonneg hstore a -> J_htlc a ->
-  exists a', process_all hstore dc (htlc_lookup H e) a q = Some a' /\ a_cursor a' = a_cursor a + Z.of_nat (length q) /\
+  exists a', process_all hstore dc (htlc_lookup H ef) a q = Some a' /\ a_cursor a' = a_cursor a + Z.of_nat (length q) /\
              nonneg hstore a' /\ J_htlc a'.
 Proof. exact htlc_inbox_never_wedged. Qed.
 
@@ -132,7 +133,7 @@ Example C09_fuse_applies :
               s_data := Sel_plasma_Fuse ++ repeat 0 12 ++ repeat 7 20; s_hash := repeat 9 32 |} in
   let e := {| e_now := 100; e_height := 10; c_FuseMinAmount := 1000000000; c_CostPerFusionUnit := 1000000000; c_FuseExpiration := 6;
               c_StakeMinAmount := 1; c_StakeTimeMin := 1; c_StakeTimeMax := 2; c_StakeTimeUnit := 1; c_TokenIssueAmount := 1 |} in
-  match generate_receive pstore (fun _ => None) (plasma_lookup e) {| a_bal := []; a_store := {| p_fusions := []; p_fused := [] |}; a_cursor := 0 |} s with
+  match generate_receive pstore (fun _ => None) (plasma_lookup (fun _ => e)) {| a_bal := []; a_store := {| p_fusions := []; p_fused := [] |}; a_cursor := 0 |} s with
   | RApplied a' [] => a_cursor a' = 1 /\ bal_get (a_bal a') ZtsQsr = 5000000000 /\
                       p_fused (a_store a') = [(repeat 7 20, 5000000000)]
   | _ => False
